@@ -266,6 +266,9 @@ class C17(Check):
         'with a space and a non-ASCII letter, and absolute paths)',
     ]
 
+    def hashseeds(self, tier, verif_seed):
+        return [verif_seed % 3] if tier == 'quick' else [0]
+
     # ------------------------------------------------------------- layers
     def layers(self, tier):
         L = [('base', 'no flags, default modes: every table x format x command'),
@@ -278,6 +281,7 @@ class C17(Check):
              ('subproc', 'real subprocess bound to the in-process route')]
         if tier == 'thorough':
             L += [('names', 'unicode/space file name, absolute paths, flags after positionals'),
+                  ('stale', 'detect onto an output file that already exists'),
                   ('discover+', 'discover: every flag set from stdin'),
                   ('verify1+', 'verify: long flag forms in every mode'),
                   ('detect1+', 'detect: further single flags / values'),
@@ -376,6 +380,14 @@ class C17(Check):
         elif layer == 'errors':
             for c in self.error_cases(tier):
                 yield c
+        elif layer == 'stale':
+            for t in T:
+                for fmt in F:
+                    for cons in ('tight', 'own'):
+                        for out in ('csv', 'parquet'):
+                            for fs in ([], [['--write-all']]):
+                                yield dict(case('detect', t, fmt, fs, cons=cons,
+                                                out=out), stale=True)
         elif layer == 'names':
             for t in CORE:
                 for fmt in F:
@@ -720,6 +732,14 @@ class C17(Check):
                        '-': '-', None: None}[c['out']]
         names['output'] = outname
         argv = self.build_argv(c, names)
+        stale = bool(c.get('stale'))
+        if stale:
+            # "if the output file already exists, it is deleted" when nothing
+            # fails: both routes start from an existing (junk) output file
+            for pth in (outname, prefix + ('L.parquet' if c['out'] == 'parquet'
+                                           else 'L.csv')):
+                with open(pth, 'w') as f:
+                    f.write('stale,junk\n1,2\n')
         before = self.listing()
         spec = cli_spec.interpret(argv, os.path.exists)
         r = self.cli(argv, stdin_text, c['route'])
@@ -993,6 +1013,8 @@ class C17(Check):
             return bad
         if cur['route'] == 'sub':
             attempt(dict(cur, route='in'))
+        if cur.get('stale'):
+            attempt(dict((k, v) for k, v in cur.items() if k != 'stale'))
         if cur['flags'] and not attempt(dict(cur, flags=[])):
             changed = len(cur['flags']) > 1
             while changed and cur['flags']:
@@ -1052,6 +1074,8 @@ class C17(Check):
             mods.append('flags-after')
         if c['name'] != 'data':
             mods.append('name=' + ('absolute' if c['name'] == 'ABS' else 'unicode-space'))
+        if c.get('stale'):
+            mods.append('stale-output')
         if mods:
             parts.append(','.join(mods))
         return ':'.join(parts)
